@@ -12,12 +12,12 @@ Section ItemInd.
   Hypothesis Hb : forall b, P (IBlock b).
   Hypothesis Hu : forall k, P (ISuper k).
   Hypothesis Hs : forall b, P (ISelf b).
-  Hypothesis Hf : forall v vals body, Forall P body -> P (IFor v vals body).
+  Hypothesis Hf : forall iters body, Forall P body -> P (IFor iters body).
   Fixpoint item_ind' (it : item) : P it :=
     match it with
     | IText s => Ht s | IStmt s => He s | IVar v => Hv v | IBlock b => Hb b | ISuper k => Hu k | ISelf b => Hs b
-    | IFor v vals body =>
-        Hf v vals body ((fix go (l : list item) : Forall P l :=
+    | IFor iters body =>
+        Hf iters body ((fix go (l : list item) : Forall P l :=
                            match l with [] => Forall_nil P | x :: r => Forall_cons x (item_ind' x) (go r) end) body)
     end.
 End ItemInd.
@@ -282,7 +282,7 @@ Section Calls.
       s_item (s_call fu view) view t curS ctx L it.
   Proof.
     intros fu j t cur curS ctx IH Ht Hcur it.
-    induction it as [s|s|v|b|k|b|v vals body IHb] using item_ind'; intros L Hne.
+    induction it as [s|s|v|b|k|b|iters body IHb] using item_ind'; intros L Hne.
     - reflexivity.
     - reflexivity.
     - reflexivity.
@@ -524,7 +524,7 @@ Lemma exec_item_ext : forall call call' B j t t' cur ctx,
   forall it L, exec_item call B j t cur ctx L it = exec_item call' B j t' cur ctx L it.
 Proof.
   intros call call' B j t t' cur ctx Hc Ht it.
-  induction it as [s|s|v|b|k|b|v vals body IHb] using item_ind'; intros L; cbn [exec_item];
+  induction it as [s|s|v|b|k|b|iters body IHb] using item_ind'; intros L; cbn [exec_item];
     try reflexivity.
   - rewrite <- Ht. destruct (assoc b (t_blocks t)); [|reflexivity].
     destruct (assoc b B) as [st|]; [|reflexivity].
@@ -624,7 +624,7 @@ Lemma exec_item_mono : forall (call call' : fid -> vars -> res) B j t cur ctx,
                  exec_item call' B j t cur ctx L it = r.
 Proof.
   intros call call' B j t cur ctx Hc it.
-  induction it as [s|s|v|b|k|b|v vals body IHb] using item_ind'; intros L r Hr Hne; cbn [exec_item] in *;
+  induction it as [s|s|v|b|k|b|iters body IHb] using item_ind'; intros L r Hr Hne; cbn [exec_item] in *;
     try exact Hr.
   - destruct (assoc b (t_blocks t)); [|exact Hr]. destruct (assoc b B) as [st|]; [|exact Hr].
     destruct (_ && _); [exact Hr|]. destruct st; [exact Hr|now apply Hc].
